@@ -95,12 +95,24 @@ other("C02", "point_interval (the column ranges of the two images that a dispari
       "offset by the disparity, empty when the disparity exceeds the width) and popcount32b (Hamming weight of a 32-bit word, "
       "bit-vector proof) are proved for all inputs; shift_right_img / census_transform leave their input image untouched ("
       + FRAME_NOTE + "); the cost values themselves:", trusted=FRAME_TRUSTED)
-other("C04", "criteria.mask_border (border pixels end with exactly bit 0), validity_mask for images without input masks (bits 1 and 2 "
-      "raised exactly when the global interval is entirely / partly outside the right image, interior columns) and "
-      "mask_invalid_variable_disparity_range (bit 1 added exactly on all-NaN pixels not yet carrying it) are proved over symbolic "
-      "datasets (vectorised numpy layer); later steps only add their own bits: postconditions of the refinement / interpolation "
-      "kernels (C06, C14); validity_mask writes only cv.validity_mask (" + FRAME_NOTE + "); masks given as input (bits 6, 7):",
-      trusted=FRAME_TRUSTED)
+reg("C04", "proof",
+    "every function that raises a pre-validation bit is under contract and proved over symbolic datasets (vectorised numpy "
+    "layer): criteria.mask_border (border pixels end with exactly bit 0); validity_mask for images without input masks (bits 1 "
+    "and 2 exactly when the global interval is entirely / partly outside the right image); allocate_left_mask (1 added exactly "
+    "on the dilated left no-data map, 64 exactly where the left input mask invalidates the pixel); allocate_right_mask, with a "
+    "loop invariant over the integer disparities and an induction lemma on the counters (128 added exactly where, outside the "
+    "bit-1 columns, EVERY in-image integer candidate x+d of the global interval is invalidated by the right input mask -- "
+    "independently of the number of sub-pixel samples on the disparity axis; 2 added exactly where every candidate is "
+    "no-data or outside); mask_invalid_variable_disparity_range (bit 1 added exactly on all-NaN pixels not yet carrying it, "
+    "costs untouched).  Later steps only add their own bits: postconditions of the refinement / interpolation kernels (C06, "
+    "C14).  validity_mask writes only cv.validity_mask (" + FRAME_NOTE + ").  By the bounded stand-in only: 'invalid flag iff "
+    "no computable cost iff disparity == invalid_disparity' on whole pipelines (depends on the cost values, C02), and the "
+    "composition validity_mask + masks + cv_masked.",
+    trusted=FRAME_TRUSTED + [
+        "assumed contract on pandora.criteria.binary_dilation_msk (scipy.ndimage.binary_dilation): a boolean array on the image "
+        "grid, a function of the mask contents and the window size; its values stay symbolic in the proofs",
+        "assumed: xr.align of the validity mask and an image mask of the same shape is the identity (same coordinate labels)"],
+    assumptions=["the disparity axis of the cost volume starts and ends on integers (grid_estimation; sub-pixel samples lie between them)"])
 other("C05", "glue contracts on the nine <step>_check_conf callbacks (the step's completed configuration is stored under the user's "
       "key, margins recorded once, no other field written); defaults, domains, idempotence, user dictionary untouched:")
 other("C07", "frame of CrossCheckingAccurate.disparity_checking and of the validation_run callback proved for all inputs: the step "
